@@ -27,7 +27,7 @@ class MPU(mpu6502.MPU):
     # addressing modes
 
     def ZeroPageIndirectAddr(self):
-        return self.WordAt(255 & (self.ByteAt(self.pc)))
+        return self.WrapAt(255 & (self.ByteAt(self.pc)))
 
     def IndirectAbsXAddr(self):
         return (self.WordAt(self.pc) + self.x) & self.addrMask
